@@ -479,15 +479,23 @@ def run_shard(sks, tier, seed):
         # a re-includable piece of plain text listed TWICE among the sources of the build (the second copy defines another
         # name than the first): every listed source is part of the build, as often as it is listed
         twice = "#ifndef C16_TWICE_A\n#define C16_TWICE_A 1\n#else\n#define C16_TWICE_B 1\n#endif\n"
+        # some builds of every shard also emit the API of xobjects classes in front of the annotated source: a struct holding a
+        # union reference that declares a method (its API holds conditionals of its own)
+        from . import c15
+
+        with_classes = [w for w in c15.method_worlds() if w[0] == "M21"][0][1]
         for label, target, ctx, bs in ctxs:
+            xc = dict(extra_classes=list(with_classes)) if (label == "cpu_openmp" or target == "opencl" or (target == "cuda" and bs == 2)) else {}
+            if xc:
+                res.events["build-with-class-api"] += 1
             os.chdir(work)
             try:
                 if target.startswith("cpu"):
                     # the first build of the process is given an extra header: it belongs to that build only
                     xh = dict(extra_headers=["#define C16_EXTRA_HEADER 1"]) if label == "cpu_serial" else {}
-                    ctx.add_kernels(sources=[twice, twice, Path(src_path)], kernels=kernel_descr(names, bs), extra_compile_args=("-O0", "-w"), extra_link_args=(), apply_to_source=[from_private], **xh)
+                    ctx.add_kernels(sources=[twice, twice, Path(src_path)], kernels=kernel_descr(names, bs), extra_compile_args=("-O0", "-w"), extra_link_args=(), apply_to_source=[from_private], **xh, **xc)
                 else:
-                    ctx.add_kernels(sources=[twice, twice, Path(src_path)], kernels=kernel_descr(names, bs), apply_to_source=[from_private])
+                    ctx.add_kernels(sources=[twice, twice, Path(src_path)], kernels=kernel_descr(names, bs), apply_to_source=[from_private], **xc)
             except Exception as e:
                 bad("C16.builds", "specialised-source-does-not-build", sks[0], "%s: %s" % (label, str(e)[-1500:]), target=target)
                 continue
